@@ -1,5 +1,5 @@
 (** Per-run instance for C15: the regenerated skeleton of cmd/sandbox/main.go (gen/GenSkeletons.v:
-    sk_sandbox_main, sk_sandbox_parsePolicy in sandbox_funs), interpreted over EVERY outcome oracle, behaves as the
+    sk_sandbox_main and its helpers in sandbox_funs), interpreted over EVERY outcome oracle, behaves as the
     reference [ref_run] of Sandbox.v. The proof is a case analysis on the oracle (empty / non-empty argument
     list x the four fallible calls succeed / fail, with symbolic strings) and evaluation of the interpreter.
     A skeleton containing a statement the extractor did not understand ([SUnknown]) is stuck and fails here. *)
@@ -22,5 +22,6 @@ Notation gen_run := (sandbox_run sandbox_funs sk_sandbox_main gen_tsync).
 Lemma gen_sandbox_ref : forall o, gen_run o = ref_run gen_tsync o.
 Proof. prove_sandbox_ref. Qed.
 
-Lemma gen_skeleton_known : all_known sk_sandbox_main = true /\ all_known sk_sandbox_parsePolicy = true.
-Proof. split; vm_compute; reflexivity. Qed.
+(** every function of the command (main and whatever helpers it has in the current tree) was understood by the extractor *)
+Lemma gen_skeleton_known : forallb (fun f => all_known (fn_body f)) sandbox_funs = true.
+Proof. vm_compute; reflexivity. Qed.
